@@ -609,6 +609,7 @@ pub fn simulate(base: &Path, cfg: txtpp::Config, sched: &Sched, opts: &SimOpts) 
         .expect("spawn coordinator");
 
     let mut chooser = Chooser::new(sched);
+    let straggler_step = (Rng::stream(sched.seed, "straggler").next() % 14) as usize;
     let mut steps = 0usize;
     let mut io_steps = 0usize;
     let mut idle_streak = 0usize;
@@ -677,6 +678,17 @@ pub fn simulate(base: &Path, cfg: txtpp::Config, sched: &Sched, opts: &SimOpts) 
         }
         if st.coord == CS::Returned {
             break;
+        }
+        if steps >= straggler_step {
+            if let Some(names) = stragglers_pending() {
+                // everybody of this run is parked: the stragglers of the previous run finish now
+                st.log.push(format!("stragglers of the previous run released: {names:?}"));
+                drop(st);
+                if !drain_stragglers() {
+                    hang = Some("a task of the previous run did not finish within 10 s".into());
+                }
+                continue;
+            }
         }
         let mut enabled: Vec<Act> = vec![];
         for (n, t) in &st.tasks {
@@ -820,6 +832,15 @@ pub fn simulate(base: &Path, cfg: txtpp::Config, sched: &Sched, opts: &SimOpts) 
         sim.cv.notify_all();
     }
 
+    if let Some(names) = stragglers_pending() {
+        // the run was shorter than the release step: they finish now
+        if let Ok(mut st) = sim.st.lock() {
+            st.log.push(format!("stragglers of the previous run released after the run: {names:?}"));
+        }
+        if !drain_stragglers() && hang.is_none() {
+            hang = Some("a task of the previous run did not finish within 10 s".into());
+        }
+    }
     let mut poisoned = hang.is_some() || diverged.is_some();
     // the run has returned: no pool task may still be inside its job (Drop joins the pool)
     let mut late_tasks: Vec<String> = vec![];
@@ -831,7 +852,17 @@ pub fn simulate(base: &Path, cfg: txtpp::Config, sched: &Sched, opts: &SimOpts) 
             .filter(|(_, t)| matches!(t.state, TS::AtBegin | TS::AtIo | TS::AtEnd | TS::Running | TS::Sending | TS::BlockedSend))
             .map(|(n, _)| n.clone())
             .collect();
-        if !late_tasks.is_empty() {
+        if !late_tasks.is_empty() && HOLD.load(std::sync::atomic::Ordering::SeqCst) && stragglers_pending().is_none() {
+            // another run of the same case follows: they stay parked until a step of that run
+            st.log.push(format!("run returned with tasks still in their job, held for the next run: {late_tasks:?}"));
+            drop(st);
+            if let Ok(mut g) = PENDING.lock() {
+                *g = Some(Pending {
+                    sim: sim.clone(),
+                    names: late_tasks.clone(),
+                });
+            }
+        } else if !late_tasks.is_empty() {
             // let them go and see what they do (a send into a closed channel panics)
             st.aborting = true;
             st.log.push(format!("run returned with tasks still in their job: {late_tasks:?}"));
@@ -882,6 +913,58 @@ pub fn simulate(base: &Path, cfg: txtpp::Config, sched: &Sched, opts: &SimOpts) 
         late_tasks,
         poisoned,
     }
+}
+
+// ---------------------------------------------------------------------------- stragglers
+
+/// Pool tasks of a run that has already returned (a changed tree may stop waiting for them).
+/// They stay parked and are let go at a seeded scheduler step of the *next* simulated run of the
+/// same case, where they do the rest of their job in one piece. Never populated on a tree whose
+/// `Drop` joins the pool.
+struct Pending {
+    sim: Arc<Sim>,
+    names: Vec<String>,
+}
+
+static PENDING: Mutex<Option<Pending>> = Mutex::new(None);
+static HOLD: std::sync::atomic::AtomicBool = std::sync::atomic::AtomicBool::new(false);
+
+/// Whether tasks that outlive the next simulated run are kept for the run after it.
+pub fn hold_stragglers(on: bool) {
+    HOLD.store(on, std::sync::atomic::Ordering::SeqCst);
+}
+
+/// Let every straggler finish now. Returns false if one of them did not finish within 10 s.
+pub fn drain_stragglers() -> bool {
+    let p = match PENDING.lock().ok().and_then(|mut g| g.take()) {
+        Some(p) => p,
+        None => return true,
+    };
+    let mut st = p.sim.st.lock().unwrap();
+    st.aborting = true;
+    p.sim.cv.notify_all();
+    let mut ticks = 0;
+    loop {
+        let live = st
+            .tasks
+            .values()
+            .any(|t| matches!(t.state, TS::AtBegin | TS::AtIo | TS::AtEnd | TS::Running | TS::Sending | TS::BlockedSend));
+        if !live {
+            return true;
+        }
+        if ticks > 200 {
+            return false;
+        }
+        let (g, to) = p.sim.cv.wait_timeout(st, Duration::from_millis(50)).unwrap();
+        st = g;
+        if to.timed_out() {
+            ticks += 1;
+        }
+    }
+}
+
+pub fn stragglers_pending() -> Option<Vec<String>> {
+    PENDING.lock().ok().and_then(|g| g.as_ref().map(|p| p.names.clone()))
 }
 
 // ---------------------------------------------------------------------------- panic hook
